@@ -25,7 +25,7 @@ func (c19) Budget(tier string) (int, int) {
 	return 30000, 25
 }
 func (c19) Rule() string {
-	return "REDUCED SCOPE (inputs sampled): histories of 2-10 operations of the zero-allocation class on one Buffer and one destination slice, so that each measured call runs on resources warmed (and dirtied) by arbitrary earlier calls incl. failing ones. A call is measured when it succeeds and its preconditions hold: the Buffer has completed a top-level, non-re-entrant call on a document at least as deeply nested (otherwise the harness first makes one: Valid on the same document), the destination has spare capacity >= len(input) (slack 0..16 drawn per call, so the exact boundary is hit), the handler does not allocate (declines, or returns offsets precomputed outside the measured region). Measurement: runtime.MemStats.Mallocs around 8 repetitions at GOMAXPROCS=1, integer average, minimum over up to 3 attempts; oracle: 0. Inputs are drawn per conversion path: exact-float, Eisel-Lemire, >19-digit truncated mantissa, halfway / multiprecision fallback, subnormal and overflow-edge literals, 18/19/20-digit integers, strings with every escape kind incl. surrogate pairs, nesting up to 10,000 equal to the warmed depth. Non-trivial: a measurement was taken after at least one earlier operation on the same resources; distinct = distinct hashes of (function, input class, handler mode, slack, warmed-by) sequences."
+	return "REDUCED SCOPE (inputs sampled): histories of 2-10 operations of the zero-allocation class on one Buffer and one destination slice, so that each measured call runs on resources warmed (and dirtied) by arbitrary earlier calls incl. failing ones. A call is measured when it succeeds and its preconditions hold: the Buffer has completed a top-level, non-re-entrant call on a document at least as deeply nested (otherwise the harness first makes one: Valid on the same document), the destination has spare capacity >= len(input) (slack 0..16 drawn per call, so the exact boundary is hit), the handler does not allocate (declines, returns offsets precomputed outside the measured region, or - the repository's benchmark pattern - runs nested traversals four levels deep with one pre-allocated handler and one warmed Buffer per level). Measurement: runtime.MemStats.Mallocs around 8 repetitions at GOMAXPROCS=1, integer average, minimum over up to 3 attempts; oracle: 0. Inputs are drawn per conversion path: exact-float, Eisel-Lemire, >19-digit truncated mantissa, halfway / multiprecision fallback, subnormal and overflow-edge literals, 18/19/20-digit integers, strings with every escape kind incl. surrogate pairs, nesting up to 10,000 equal to the warmed depth. Non-trivial: a measurement was taken after at least one earlier operation on the same resources; distinct = distinct hashes of (function, input class, handler mode, slack, warmed-by) sequences."
 }
 func (c19) Assumptions() []string {
 	return []string{
@@ -36,7 +36,7 @@ func (c19) Assumptions() []string {
 }
 func (c19) Required(tier string) []string {
 	return []string{"measured", "measured-after-failed-call", "path-float-exact", "path-float-eisel-lemire", "path-float-long-mantissa", "path-float-halfway", "path-float-subnormal", "path-int-18", "path-int-19", "path-int-20",
-		"path-string-escapes", "path-string-surrogate-pair", "path-depth-equals-warmed", "path-decode-null", "handler-consume", "handler-decline", "dst-slack-0"}
+		"path-string-escapes", "path-string-surrogate-pair", "path-depth-equals-warmed", "path-decode-null", "handler-consume", "handler-decline", "handler-nested-per-level-buffers", "dst-slack-0"}
 }
 
 var c19Floats = map[string][]string{
@@ -171,7 +171,7 @@ func (c19) Gen(r *Rand, sc *Scenario, tier string) {
 			d = docOf(mutateDoc(r, d.Bytes()), d.Class+"-mut")
 		}
 		sc.Docs = append(sc.Docs, d)
-		op := Op{Kind: fn, Doc: i, A: r.Intn(3), B: []int{0, 0, 1, 3, 16}[r.Intn(5)], C: []int{0, 0, 3, 40}[r.Intn(4)]}
+		op := Op{Kind: fn, Doc: i, A: r.Intn(4), B: []int{0, 0, 1, 3, 16}[r.Intn(5)], C: []int{0, 0, 3, 40}[r.Intn(4)]}
 		if op.A == 2 {
 			op.Tape = genDecisionTape(r, r.Range(1, 70), false)
 		}
@@ -229,11 +229,44 @@ func (h *recordHandler) decide(data []byte) int {
 func (h *recordHandler) HandleArrayValue(data []byte) (int, error)     { return h.decide(data), nil }
 func (h *recordHandler) HandleObjectValue(_, data []byte) (int, error) { return h.decide(data), nil }
 
+// nestHandler is the repository's own benchmark pattern: for a container member it runs a
+// nested traversal with the next level's handler and the next level's own Buffer, and
+// returns the offset that call reported. Everything it needs is allocated up front.
+type nestHandler struct {
+	buf   *rjson.Buffer
+	child *nestHandler
+}
+
+func newNestHandler(levels int) *nestHandler {
+	h := &nestHandler{buf: &rjson.Buffer{}}
+	if levels > 1 {
+		h.child = newNestHandler(levels - 1)
+	}
+	return h
+}
+
+func (h *nestHandler) handle(data []byte) (int, error) {
+	if h.child == nil || len(data) == 0 {
+		return 0, nil
+	}
+	switch data[0] {
+	case '[':
+		return rjson.HandleArrayValues(data, h.child, h.child.buf)
+	case '{':
+		return rjson.HandleObjectValues(data, h.child, h.child.buf)
+	}
+	return 0, nil
+}
+func (h *nestHandler) HandleArrayValue(data []byte) (int, error)     { return h.handle(data) }
+func (h *nestHandler) HandleObjectValue(_, data []byte) (int, error) { return h.handle(data) }
+
 type c19ctx struct {
-	buf *rjson.Buffer
-	dst []byte
-	rh  *replayHandler
-	tg  targets
+	buf  *rjson.Buffer
+	dst  []byte
+	rh   *replayHandler
+	nh   *nestHandler
+	nest bool
+	tg   targets
 }
 
 var (
@@ -259,9 +292,17 @@ func c19call(fn string, x *c19ctx, data []byte) bool {
 	case "SkipValueFast":
 		sinkP, err = rjson.SkipValueFast(data, x.buf)
 	case "HandleArrayValues":
+		if x.nest {
+			sinkP, err = rjson.HandleArrayValues(data, x.nh, x.buf)
+			break
+		}
 		x.rh.i = 0
 		sinkP, err = rjson.HandleArrayValues(data, x.rh, x.buf)
 	case "HandleObjectValues":
+		if x.nest {
+			sinkP, err = rjson.HandleObjectValues(data, x.nh, x.buf)
+			break
+		}
 		x.rh.i = 0
 		sinkP, err = rjson.HandleObjectValues(data, x.rh, x.buf)
 	case "ReadStringBytes":
@@ -344,7 +385,7 @@ func measureAllocs(fn string, x *c19ctx, data []byte) uint64 {
 
 func (c19) Exec(sc *Scenario, st *Stats) *Violation {
 	buf := &rjson.Buffer{}
-	x := &c19ctx{buf: buf, rh: &replayHandler{}}
+	x := &c19ctx{buf: buf, rh: &replayHandler{}, nh: newNestHandler(4)}
 	warmDepth := 0
 	lastFailed := false
 	done := 0
@@ -371,7 +412,12 @@ func (c19) Exec(sc *Scenario, st *Stats) *Violation {
 				continue
 			}
 			depth = dp
-			if op.Kind == "HandleArrayValues" || op.Kind == "HandleObjectValues" {
+			x.nest = false
+			if (op.Kind == "HandleArrayValues" || op.Kind == "HandleObjectValues") && op.A == 3 {
+				// nested traversals with one warmed Buffer per level (the warm-up run below warms them)
+				x.nest = true
+				st.probe("handler-nested-per-level-buffers")
+			} else if op.Kind == "HandleArrayValues" || op.Kind == "HandleObjectValues" {
 				rec := &recordHandler{mode: op.A, tape: NewTape(op.Tape)}
 				// the recording pass uses no Buffer, so it cannot warm anything
 				if op.Kind == "HandleArrayValues" {
